@@ -310,6 +310,17 @@ def cls_out_of_window(rnd):
     if rnd.random() < 0.06:
         # a project at the edge of the calendar (found by the thorough tier's corrupted digits: 9999-12-31 +3w)
         return m, re.sub(r'(project \w+ "P" )\d{4}-\d{2}-\d{2}', r"\g<1>" + rnd.choice(["9999-12-31", "9999-12-20", "0001-01-01"]), text, count=1)
+    if rnd.random() < 0.25:
+        # work and milestones right at the project end: a round-the-clock resource, a task that reaches the end, a milestone a
+        # gap behind it; resolutions that do not divide the project period (the last slot straddles the end)
+        end_ = st + timedelta(days=m["days"]) if "days" in m else st + timedelta(weeks=m["weeks"])
+        if rnd.random() < 0.5:
+            text = re.sub(r'(timezone "Etc/UTC"\n)(  timingresolution \d+min\n)?', r"\1  timingresolution %dmin\n" % rnd.choice([7, 11, 13, 45, 50]), text, count=1)
+        text += ('resource r24 "r24" {\n  workinghours mon - sun 0:00 - 24:00\n}\n'
+                 'task za "za" {\n  start %s\n  effort %dmin\n  allocate r24\n}\n'
+                 'task zm "zm" {\n  depends za { gapduration %dmin }\n}\n'
+                 % (gen.d_full(end_ - timedelta(minutes=rnd.choice([240, 235, 60, 12]))), rnd.choice([240, 236, 12, 60]), rnd.choice([1, 30, 59, 120])))
+        return m, text
     if rnd.random() < 0.4:
         # a milestone pinned a little outside the window (less than a slot, one or two slots)
         off = rnd.choice([1, 15, 30, 59, 61, 90, 150])
